@@ -4,6 +4,8 @@ import (
 	"io/fs"
 	"syscall"
 
+	"github.com/criyle/go-sandbox/runner"
+	"github.com/criyle/go-sandbox/zzverif/kern"
 	"github.com/criyle/go-sandbox/zzverif/sym"
 )
 
@@ -39,6 +41,37 @@ func VerifC17_TwoCallers() {
 	sym.Reach("both-returned")
 	sym.Assert(errA != nil, "caller A consumed the (successful) answer of another call")
 	sym.Assert(errB == nil, "caller B consumed the (failing) answer of another call")
+	sym.Assert(!w.initExited, "concurrent calls desynchronised the protocol")
+	sym.Assert(w.host.Ping() == nil, "the environment is unusable after concurrent calls")
+}
+
+// VerifC17_PingDuringExecve: one goroutine runs a (long-running) program in an environment
+// while another pings the same environment (all interleavings within the delay bound; the
+// 3-second socket deadline of Ping may expire whenever it is armed while the program still
+// runs).  The run must end with the program's genuine verdict, the Ping must succeed, the
+// environment stays usable: a caller's timeout must never reach another caller's exchange.
+func VerifC17_PingDuringExecve() {
+	w := newWorld()
+	w.onlyRun = true
+	var res runner.Result
+	var errB error
+	doneA, doneB := false, false
+	go func() {
+		res = w.host.Execve(kern.Background(), ExecveParam{Args: []string{"/bin/prog"}, Env: []string{"A=1"}})
+		doneA = true
+	}()
+	go func() {
+		errB = w.host.Ping()
+		doneB = true
+	}()
+	sym.WaitOthers()
+	sym.Assert(doneA && doneB, "a concurrent call did not return")
+	sym.Reach("both-returned")
+	if pr := w.prog; pr != nil && pr.started {
+		sym.Reach("program-ran")
+		sym.Assert(res.Status == refVerdict(pr.status), "a concurrent Ping changed the verdict of a run in the same environment")
+	}
+	sym.Assert(errB == nil, "Ping failed although the container answers")
 	sym.Assert(!w.initExited, "concurrent calls desynchronised the protocol")
 	sym.Assert(w.host.Ping() == nil, "the environment is unusable after concurrent calls")
 }
